@@ -58,6 +58,8 @@ def check(ctx):
     cases = ctx.gen('roots')
     ev2 = ctx.exec('roots', cases)
     ctx.validate('Trace_Roots', ev2, cases, 'roots', nontrivial=nt, key=key)
+    if not q:
+        ctx.exhaustive_parts.append('all 100 842 quintics with coefficients in -3..3 (leading coefficient non-zero), both refinement settings')
     # calibration record
     worst_be, worst_m, cls, nsep = {}, 0, {}, 0
     def path(e):
@@ -77,6 +79,6 @@ def check(ctx):
     ctx.notes.append('calibration (this run): worst backward error %s (units of 1e-15, per path; guards: Roots.tla BeGuardE15 / BeGuardE6; known-finding classes excluded); worst matching distance for separated roots %d units of 1e-12*scale (guard 1e-6 = 1e6 units)' % (worst_be, worst_m))
     return ctx.finish(
         rule='cases: (i) every TLC-expanded product over multisets of small Gaussian-integer roots (f64 when the coefficients are real, Cmplx always), (ii) for every degree 1..12 '
-             'and both coefficient types ten seeded root/coefficient patterns, (iii) the input classes of D4/D8, degree 0 and the empty list, (iv) every combination of zero / real / imaginary / general coefficients in every position of degree-1..3 polynomials with magnitudes spread up to 1e6 both ways, (v) sequences of calls and mutations on one object; each with refine = false and true. '
+             'and both coefficient types ten seeded root/coefficient patterns, (iii) the input classes of D4/D8, degree 0 and the empty list, (iv) every combination of zero / real / imaginary / general coefficients in every position of degree-1..3 polynomials with magnitudes spread up to 1e6 both ways, (v) sequences of calls and mutations on one object, (vi) small-integer polynomials (coefficients -3..3): products (a*x^k + b)*q(x) for k = 2..5 (real and Gaussian-integer), palindromic / anti-palindromic polynomials, polynomials in x^2 and x^3 (times a linear factor), degree 4..6; every quintic with coefficients in -3..3 (thorough; a seeded sample in quick) and a sample of the sextics - roots matched against independent reference roots (Aberth iteration + double-double Newton) when these are simple and well conditioned; each with refine = false and true. '
              'One event per call; distinct = distinct (class, degree, settings, measurements).',
         trusted=['harness measurements in double-double (harness/src/suites/roots.rs, dd.rs)', 'TLC', 'Roots.tla / Poly.tla'])
